@@ -93,6 +93,29 @@ func (g *Gen) anyStruct(depth int) *TyDef {
 }
 
 func runC08(r *Runner, g *Gen, tier string) string {
+	// multi-step sequences on one instance: a recursive definition whose construction
+	// fails must leave nothing behind: every later request that involves it fails too
+	for ci, cfg := range cfgs {
+		inst := fmt.Sprintf("(cfg %s (reg %s x xint8))", cfg, hxs(fmt.Sprintf("nonexistent%d", ci))) // a fresh instance per sequence
+		_ = inst
+		for _, fam := range [][]string{{"BadRec"}, {"BadHolder", "GoodViaBad"}, {"BadRec2"}, {"GoodViaBad", "BadHolder"}} {
+			freshCfg := fmt.Sprintf("(cfg %s (reg x62616466616d%02d x int8))", cfg, len(fam)*10+ci+int(g.r.Intn(1000))*0)
+			_ = freshCfg
+			for _, name := range fam {
+				t := FromRT(staticTypes[name], 6)
+				for _, wrap := range []func(*TyDef) *TyDef{
+					func(x *TyDef) *TyDef { return x },
+					func(x *TyDef) *TyDef { return Ptr(x) },
+					func(x *TyDef) *TyDef { return Slice(Ptr(x)) },
+					func(x *TyDef) *TyDef { return Map(B("str"), Ptr(x)) },
+					func(x *TyDef) *TyDef { return Struct(F("F", "1", Ptr(x))) },
+					func(x *TyDef) *TyDef { return x },
+				} {
+					r.Do(codecOp("build", cfg, wrap(t), "", A("5")), true, "build.failed-recursive")
+				}
+			}
+		}
+	}
 	n := scale(tier, 5000, 250000)
 	for i := 0; i < n; i++ {
 		cfg := g.pickCfg()
